@@ -43,8 +43,8 @@ SPEC = {
         "level of the enclosing POU, initial state at the first stop, undebugged final state) and against StepIn-only "
         "runs per thread",
         "adapter layer (trust-debug/src/adapter/stop.rs, run_control.rs): model read from the source (the crate "
-        "exposes it only through DAP stdio); tied by a source-pattern check and by replaying the listed finding "
-        "against the real trust-debug binary over stdio (a race, retried)",
+        "exposes it only through DAP stdio); tied by a fail-closed source-pattern check and by replaying the witness of the "
+        "fixed finding against the real trust-debug binary over stdio on every run (a race, retried)",
     ],
     "assumptions": [
         "set_current_thread is called by the cycle thread only (as in runtime/cycle.rs)",
@@ -82,41 +82,41 @@ MANIFEST = {
                   "with the right depth, and that the real debugger leaves the real program state alone (final state "
                   "and state at every stop compared with the undebugged run). Not covered: debugger writes/forces, "
                   "watch/condition expressions with side effects, reload, the remote/attach path. Second layer (DAP "
-                  "adapter stop filter, modelled from the source): c17_adapter_counterexample refutes 'every runtime "
-                  "stop is emitted or followed by a resume' (a breakpoint stop whose generation went stale is dropped "
-                  "while the runtime stays parked) - confirmed on the real trust-debug binary over DAP stdio and listed "
-                  "in known_findings.json; c17_adapter_told_partial proves the claim for every interleaving under the "
-                  "decidable guard that excludes exactly that window. The adapter model is not differentially tested "
-                  "beyond that replay.",
+                  "adapter stop filter as of d5a9ac8, modelled from the source, fail-closed source-pattern tie): the "
+                  "stale-generation wedge (C17-adapter-stale-generation, fixed) is gone - c17_adapter_stale_generation_fixed, "
+                  "and its DAP-stdio witness runs against the real trust-debug binary on every check as a regression (a "
+                  "reproduction is a violation). The unguarded claim still fails in one residual window "
+                  "(c17_adapter_counterexample_residual: a resume request handled while a Breakpoint stop is unprocessed in "
+                  "the channel, that stop going stale, then a pause - the dropped stale stop clears pause_expected); "
+                  "c17_adapter_told_partial proves the claim for every interleaving, with unrestricted breakpoint changes, "
+                  "under the decidable guard that excludes exactly resumes of an undelivered breakpoint stop. The adapter "
+                  "model is not differentially tested beyond that replay.",
 }
 
 
-FINDING_ID = "C17-adapter-stale-generation"
+FINDING_ID = "C17-adapter-stale-generation"  # status "fixed" (d5a9ac8); its witness is kept as a regression
 
 
 def _dap_binary(tier):
-    """Path of the real trust-debug binary (built from /repo's working tree into .build/dap), or None.
-    Thorough tier: always (re)built.  Quick tier: only refreshed when it already exists, within 90 s,
-    so that a cold checkout keeps the quick tier short."""
+    """Builds the real trust-debug binary from /repo's working tree into .build/dap (like the LSP
+    binary of C14/C15: rebuilt on every run, warm = a second or two; setup.sh builds it cold)."""
     import vlib
     target = os.path.join(vlib.BUILD, "dap")
     binary = os.path.join(target, "debug", "trust-debug")
-    if tier != "thorough" and not os.path.exists(binary):
-        return None, "trust-debug not built yet (the thorough tier builds it)"
     cmd = ["cargo", "build", "--offline", "--quiet", "--manifest-path", "/repo/Cargo.toml", "-p", "trust-debug",
            "--target-dir", target]
     try:
-        rc, log = vlib.sh(cmd, timeout=(1800 if tier == "thorough" else 90))
+        rc, log = vlib.sh(cmd, timeout=3600)
     except Exception as e:  # timeout
         return None, f"trust-debug build did not finish: {e}"
-    if rc != 0:
-        return None, "trust-debug does not build: " + log[-300:]
+    if rc != 0 or not os.path.exists(binary):
+        return None, "trust-debug does not build against /repo: " + log[-600:]
     return binary, ""
 
 
 def extra(ctx):
-    """Coverage figures, the source-level tie of the adapter model, and the replay of the listed
-    adapter-layer finding against the real trust-debug binary."""
+    """Coverage figures, the source-level tie of the adapter model, and the regression replay of the
+    (fixed) adapter-layer finding against the real trust-debug binary: a reproduction is a violation."""
     import vlib
     from checks import c17_dap
     cases = ctx["cases"]
@@ -124,32 +124,76 @@ def extra(ctx):
     mon = sum(1 for c in cases if "kind mon" in c.lines)
     rt = sum(1 for c in cases if "kind rt" in c.lines)
     cov = {"layer1_cases": mon, "layer2_cases": rt, "watchdog_expiries": hangs}
-    out = {"coverage": cov, "known": []}
-    # The adapter model is read from the source: say so if the source no longer looks like the model.
+    out = {"coverage": cov, "known": [], "oracle_failures": [], "failures": []}
+    # The adapter model is read from the source: fail closed if the source no longer looks like it.
     stop_rs = "/repo/crates/trust-debug/src/adapter/stop.rs"
-    frags = [r"pause_expected\.swap\(false", r"if current != Some\(generation\)",
+    frags = [r"pause_expected\.swap\(false", r"let still_parked = self\.stop_control\.is_paused\(\)",
+             r"last\.location == stop\.location", r"last\.thread_id == stop\.thread_id",
+             r"last\.breakpoint_generation == stop\.breakpoint_generation",
+             r"if current != Some\(generation\) && !still_parked",
              r"DebugStopReason::Breakpoint \| DebugStopReason::Step"]
     try:
         text = open(stop_rs, encoding="utf-8").read()
         missing = [f for f in frags if not re.search(f, text)]
-        cov["adapter_filter_source_matches_model"] = not missing
-    except OSError:
-        cov["adapter_filter_source_matches_model"] = False
-    # Known finding: replay the witness through DAP stdio (a real race: retried, never a failure).
-    listed = [f for f in vlib.known_findings("C17") if f.get("id") == FINDING_ID]
-    if listed:
-        binary, why = _dap_binary(ctx["tier"])
-        if binary is None:
-            cov["adapter_finding_replay"] = "skipped: " + why
-        else:
-            try:
-                res = c17_dap.replay(binary, vlib.WORK, attempts=(400 if ctx["tier"] == "thorough" else 80),
-                                     budget_s=(240 if ctx["tier"] == "thorough" else 45))
-            except Exception as e:
-                res = {"reproduced": False, "attempts": 0, "detail": f"replay crashed: {e}"}
-            cov["adapter_finding_replay"] = res
-            if res.get("reproduced"):
-                out["known"].append(
-                    f"{listed[0]['what']} [{listed[0]['match']}; reproduced over DAP stdio against the real "
-                    f"trust-debug binary in {res['attempts']} attempt(s): {res['detail']}]")
+    except OSError as e:
+        missing = [str(e)]
+    cov["adapter_filter_source_matches_model"] = not missing
+    if missing:
+        out["failures"].append("adapter model (shouldEmitStop/stillParkedOn) no longer matches "
+                               "trust-debug/src/adapter/stop.rs: missing " + "; ".join(missing))
+    # Regression witness of C17-adapter-stale-generation through DAP stdio (a real race: retried).
+    binary, why = _dap_binary(ctx["tier"])
+    if binary is None:
+        cov["adapter_regression_replay"] = "not run: " + why
+        out["failures"].append(why)
+        return out
+    thorough = ctx["tier"] == "thorough"
+    try:
+        res = c17_dap.replay(binary, vlib.WORK, attempts=(600 if thorough else 120),
+                             budget_s=(240 if thorough else 40))
+    except Exception as e:
+        res = {"reproduced": False, "attempts": 0, "detail": f"replay crashed: {e}"}
+    cov["adapter_regression_replay"] = res
+    if res.get("reproduced"):
+        out["oracle_failures"].append({
+            "what": "adapter layer: a breakpoint stop was dropped while the runtime stayed parked on it "
+                    "(regression of C17-adapter-stale-generation, fixed in d5a9ac8)",
+            "witness": "checks/c17_dap.py: at every breakpoint stop send `continue` and `setBreakpoints` (same "
+                       "file, same lines) in one write",
+            "observed": res["detail"], "attempts": res["attempts"], "seed": ctx["seed"], "tier": ctx["tier"],
+            "expected": "every breakpoint hit is followed by a `stopped` event (c17_adapter_told_partial; the "
+                        "witness run satisfies its guard)",
+        })
+    elif res.get("attempts", 0) == 0:
+        out["failures"].append("adapter regression replay did not run: " + str(res.get("detail")))
     return out
+
+
+def replay(obj):
+    """`check.py C17 --replay f`: a model-vs-implementation case is re-run through the standard path;
+    an adapter regression witness is re-run through DAP stdio."""
+    import json as _json
+    import vlib
+    import check
+    from checks import c17_dap
+    import sys as _sys
+    if obj.get("kind") == "oracle-on-implementation":
+        binary, why = _dap_binary("thorough")
+        if binary is None:
+            print(why)
+            return 1
+        res = c17_dap.replay(binary, vlib.WORK, attempts=600, budget_s=240)
+        print(_json.dumps(res, indent=1))
+        print("replay:", "still fails" if res.get("reproduced") else "passes")
+        return 1 if res.get("reproduced") else 0
+    if "case" not in obj:
+        print(_json.dumps(obj, indent=1))
+        print("this replay names a broken obligation, not an input; re-run the check itself")
+        return 1
+    mod = _sys.modules[__name__]
+    r = check.standard_run(mod, obj.get("tier", "quick"), obj["seed"], only=obj["case"])
+    for d in r["disagreements"]:
+        print(f"case {d['case']} op {d['op_index']}: {d['op']}\n  impl : {d['impl']}\n  model: {d['model']}")
+    bad = r["disagreements"] or [f for f in r["failures"]]
+    print("replay:", "still fails" if bad else "passes")
+    return 1 if bad else 0
